@@ -237,6 +237,7 @@ func (c08) AfterOp(x *Exec, task, idx int, op Op, out Outcome) {
 			return
 		}
 	}
+	st.prev = now
 	if op.Tag != "" {
 		st.hostile++
 		x.fault("hostile:" + op.M)
